@@ -3,3 +3,4 @@ import RagcModel.Model.Kmer
 import RagcModel.Model.Tuple
 import RagcModel.Model.SegCompress
 import RagcModel.Model.Segment
+import RagcModel.Model.Queue
